@@ -51,7 +51,7 @@ RULE = ("one operation (add_bracket result, bracket_indices, marginal_rates, rat
 TRUSTED = ["numpy (tile/outer/minimum/maximum/dot/digitize/round) is modelled by list functions in coq/model/Scale.v, covered by the correspondence only",
            "the float addition factor + numpy.finfo(float).eps is evaluated by the harness with numpy and handed to the model as its eps (2^-52 for factor in [1,2), 0 when absorbed)",
            "harness/scalelib.py decides from the inputs (Fraction arithmetic) whether a real-valued result is compared exactly, on a 10^-6 grid, or only by the oracle"]
-ASSUMPTIONS = ["binary64 rounding is not modelled: amounts equal the model's rational exactly only when every intermediate is representable (checked per base), otherwise they are compared on a 10^-6 grid with the model and within 1e-9 relative with the definition",
+ASSUMPTIONS = ["binary64 rounding is not modelled: amounts equal the model's rational exactly only when every intermediate is representable (checked per base), otherwise they are compared on a 10^-6 grid with the model and within 1e-9 relative with the definition; the eps = 0 definition is claimed up to the code's threshold shift: an absolute slack of sum|rate_i| * 2^-49 * (largest |threshold| or |base|) is allowed (matters only for thresholds >= 2^20)",
                "a base equal to a positive threshold is in the lower bracket (eps shift, factor 1); on a scaled positive threshold (factor != 1) either neighbour is accepted; bases below the first threshold and linear-average bases beyond the last threshold are modelled and compared but not claimed",
                "the wide (> 65536 bases) cases and the special-value cases of the rate scales are checked by the oracle only (the model receives an empty sequence); special-value cases of the amount scales are ordinary cases",
                "factor >= 0; ordinary inputs |x| < 2^16 multiples of 1/8 (exactly representable in float32/float64); rounding options are compared with the model, no statement is claimed for them"]
@@ -369,7 +369,12 @@ def oracle(c, o):
                         f"{sorted(cands)} of {br}")
         elif op == "calc_mr":
             e = L.def_marginal_rate(br, b, factor)
-            if not L.close(v, e):
+            # the eps = 0 definition is claimed up to the code's threshold shift t * (factor + 2^-52)
+            # and the binary64 rounding of the operands: a few ulps of the largest threshold / base
+            # per bracket, weighted by the rates
+            big = max([abs(b)] + [abs(t * factor) for t, _ in br] + [abs(t) for t, _ in br])
+            slack = sum((abs(r) for _, r in br), F(0)) * big * F(1, 2**49)
+            if not L.close(v, e) and abs(F(v) - e) > slack:
                 return f"marginal_rate: calc({b}, factor={factor}) = {float(v)!r}, definition gives {e} = {float(e)!r} on {br}"
         elif op == "calc_ma":
             e = L.def_marginal_amount(br, b)
@@ -381,7 +386,9 @@ def oracle(c, o):
                 return f"single_amount: calc({b}, right={c['right']}) = {v}, amount of the containing bracket is {e} on {br}"
         elif op == "calc_la":
             e = L.def_linear_average(br, b)
-            if e is not None and not L.close(v, e):
+            big = max([abs(b)] + [abs(t) for t, _ in br])
+            slack = max((abs(r) for _, r in br), default=F(0)) * big * F(1, 2**49)
+            if e is not None and not L.close(v, e) and abs(F(v) - e) > slack:
                 return f"linear_average: calc({b}) = {float(v)!r}, base times interpolated rate is {e} = {float(e)!r} on {br}"
     return None
 
